@@ -124,11 +124,11 @@ def c14_cases(tier):
 
 def c16_cases(tier):
     exprs = ["ID", "ID!", "[ID!]!", "[ID]", "[[ID!]]"] if tier == "quick" else [s for (s, _) in type_exprs(3)]
-    for e in exprs:
+    for (e, nz) in [(x, n) for x in exprs for n in ("none", "rust")]:
         e = e.replace("Int", "ID")
-        case = {"schema": "type Query { f: %s s: String }" % e, "query": "query Q { f s }", "options": {"mode": "cli"}}
+        case = {"schema": "type Query { f: %s s: String }" % e, "query": "query Q { f s }", "options": {"mode": "cli", "normalization": nz}}
 
-        def oracle(res, e=e):
+        def oracle(res, e=e, nz=nz):
             if res["exit"] != 0 or not res["out"] or not res["out"].get("ok"):
                 return None
             t = norm(res["out"]["tokens"])
@@ -139,7 +139,7 @@ def c16_cases(tier):
             if "deserialize_with" in re.search(r"((?:#\[[^\]]*\])*)pubs:", t).group(1):
                 return "a non-ID field carries the ID coercion"
             if "deserialize_with" not in attrs:
-                return "ID-typed field `f: %s` carries no coercion" % e
+                return "ID-typed field `f: %s` carries no coercion (normalization %s; declared type %s)" % (e, nz, ty)
             if "deserialize_id" in attrs and ty != "ID":
                 return "`f: %s` has type %s but helper deserialize_id returns String" % (e, ty)
             if "deserialize_option_id" in attrs and ty != "Option<ID>":
@@ -319,6 +319,8 @@ def c06_cases(tier):
         ("k7 anonymous selection set", C06_SCHEMA, "{ n }"),
         ("k7 anonymous query", C06_SCHEMA, "query { n }"),
         ("k8 mutation without a mutation root", C06_SCHEMA, "mutation M { n }"),
+        ("k8 mutation although `schema { query: Query }` lists no mutation root and a type is merely called Mutation", C06_SCHEMA + " type Mutation { n: Int }", "mutation M { n }"),
+        ("k8 subscription although `schema { query: Query }` lists no subscription root and a type is merely called Subscription", C06_SCHEMA + " type Subscription { n: Int }", "subscription S { n }"),
         ("k8 subscription without a subscription root", C06_SCHEMA, "subscription S { n }"),
     ]
     for (what, schema, q) in cat:
@@ -402,6 +404,27 @@ def c05_cases(tier):
                         return "QUERY is not the document verbatim"
                 return None
             yield case, oracle
+    # two operations whose names coincide after normalization: name, variables and response must come from ONE operation
+    doc2 = "query get_user($id: ID!) { userById(id: $id) }\nquery GetUser($name: String!) { userByName(name: $name) }"
+    schema2 = "type Query { userById(id: ID!): Int userByName(name: String!): Int }"
+    for nz in ("none", "rust"):
+        for sel in ("GetUser", "get_user"):
+            case = {"schema": schema2, "query": doc2, "options": {"mode": "cli", "normalization": nz, "operation_name": sel}}
+
+            def oracle_same(res, nz=nz, sel=sel):
+                if res["exit"] != 0 or not res["out"] or not res["out"].get("ok"):
+                    return None
+                toks = res["out"]["tokens"]
+                names = re.findall(r'OPERATION_NAME\s*:\s*&\s*(?:\'static\s*)?str\s*=\s*"([^"]*)"', toks)
+                if len(names) != 1:
+                    return None      # a name that matches no operation: library / CLI form generates every operation (not this case's concern)
+                st = _structs(norm(toks))
+                var = sorted((st.get("Variables") or {}).keys())
+                want = {"get_user": ["id"], "GetUser": ["name"]}[names[0]]
+                if var != want:
+                    return "operationName is %r but Variables has the members %s of the other operation (selected %s, normalization %s)" % (names[0], var, sel, nz)
+                return None
+            yield case, oracle_same
     # the document read from a FILE (the derive / CLI path): the query text is the file's text, byte for byte
     d = os.path.join(WORK, "replay-files")
     os.makedirs(d, exist_ok=True)
